@@ -99,14 +99,19 @@ def run(p):
         else:
             p.stats.add('inputs:decimal')
         one(p, client, ep, ft, tt, vals)
-    # index
-    p.case('index', ['GET /'])
-    r = client.get('/')
-    body = r.data.decode()
+    # index: requested repeatedly, from the same and from fresh clients, interleaved with the geodesic calls above —
+    # it must list every endpoint EVERY time (state shared between requests would show on the later ones)
     rules = sorted(x.rule for x in app.url_map.iter_rules() if x.endpoint != 'static')
-    p.check(r.status_code == 200, 'api:index', 'index', ['GET /'], r.status_code, 200, 'GET /')
-    listed = sorted(x.strip(" '\"") for x in body.strip('()').split(',') if x.strip(" '\""))
-    p.check(listed == rules, 'api:index', 'index', ['GET /'], body, rules, 'GET /')
+    for k in range(4):
+        c = client if k % 2 == 0 else app.test_client()
+        p.case('index', ['GET /', k])
+        r = c.get('/')
+        body = r.data.decode()
+        p.check(r.status_code == 200, 'api:index', 'index', ['GET /', k], r.status_code, 200, f'GET / (request {k + 1})')
+        listed = sorted(x.strip(" '\"") for x in body.strip('()').split(',') if x.strip(" '\""))
+        p.check(listed == rules, 'api:index' + (':repeated-request' if k else ''), 'index', ['GET /', k], body, rules,
+                f'GET / (request {k + 1} in this process)')
+        c.get('/vincinv', query_string={'lat1': -37.0, 'lon1': 144.0, 'lat2': -38.0, 'lon2': 145.0})
     p.check(rules == ['/', '/vincdir', '/vincinv'], 'api:index', 'index', ['app.url_map'], rules,
             ['/', '/vincdir', '/vincinv'], 'app.url_map')
     for rule in rules:   # every listed endpoint answers (not 404)
